@@ -9,6 +9,7 @@ import (
 	"strings"
 	"sync"
 	"sync/atomic"
+	"time"
 
 	"go.mongodb.org/mongo-driver/bson"
 	"go.mongodb.org/mongo-driver/bson/primitive"
@@ -51,6 +52,7 @@ type Server struct {
 	gap      string
 	Commands map[string]int
 	reqID    int32
+	curOwner string
 	OnArrive func(p *Pending) // optional, called with the lock held when a command becomes pending
 }
 
@@ -82,6 +84,12 @@ func (d *Dialer) DialContext(ctx context.Context, network, address string) (net.
 	d.S.mu.Lock()
 	if d.S.dead[d.Instance] {
 		d.S.mu.Unlock()
+		// a dead peer is noticed after a (simulated) while, not instantly: an instant refusal makes
+		// the driver's monitor and server selection chase each other without time passing
+		select {
+		case <-ctx.Done():
+		case <-time.After(2 * time.Second):
+		}
 		return nil, fmt.Errorf("simmongo: instance %d is down", d.Instance)
 	}
 	a, b := net.Pipe()
@@ -134,6 +142,9 @@ func (s *Server) CloseAll() {
 		c.c.Close()
 	}
 }
+
+// SetOwner names the stimulus that commands arriving from now on belong to.
+func (s *Server) SetOwner(o string) { s.mu.Lock(); s.curOwner = o; s.mu.Unlock() }
 
 // PendingList returns the pending commands sorted canonically (owner, content, arrival).
 func (s *Server) PendingList() []*Pending {
@@ -362,7 +373,7 @@ func (s *Server) handle(c *conn, cmd bson.D) (bson.D, bool) {
 	var p *Pending
 	if !auto {
 		s.seq++
-		p = &Pending{Seq: s.seq, Instance: c.instance, DB: db, Name: lname, Coll: collName, Key: canonCmd(cmd), Write: write, cmd: cmd, decide: make(chan string)}
+		p = &Pending{Seq: s.seq, Instance: c.instance, DB: db, Name: lname, Coll: collName, Key: canonCmd(cmd), Write: write, Owner: s.curOwner, cmd: cmd, decide: make(chan string)}
 		s.pending = append(s.pending, p)
 		if s.OnArrive != nil {
 			s.OnArrive(p)
